@@ -113,6 +113,23 @@ def r1(ctx):
             pos, neg = (st.value.body, st.value.orelse) if _avail(st.value.test) > 0 else (st.value.orelse, st.value.body)
             sel[("numba", st.targets[0].id)] = unparse(pos)
             sel[("fallback", st.targets[0].id)] = unparse(neg)
+    # (prange, njit) = _select():  the selector's return value, piece by piece
+    for st in g.tree.body:
+        if isinstance(st, ast.Assign) and len(st.targets) == 1 and isinstance(st.value, ast.Call) and isinstance(st.value.func, ast.Name) \
+                and st.value.func.id in g.functions and not st.value.args and not st.value.keywords:
+            tg = st.targets[0]
+            names = [e.id for e in tg.elts] if isinstance(tg, (ast.Tuple, ast.List)) and all(isinstance(e, ast.Name) for e in tg.elts) else \
+                ([tg.id] if isinstance(tg, ast.Name) else [])
+            rt_sel = ana.builder(g.functions[st.value.func.id]).return_term()
+            for g_, v in tm.pieces_of(rt_sel):
+                gs = str(g_)
+                if "NUMBA_AVAILABLE" not in gs:
+                    continue
+                br = "fallback" if gs.startswith("!") or gs.startswith("not") else "numba"
+                vals = list(v.elems) if isinstance(v, tm.Tup) else [v]
+                if len(vals) == len(names):
+                    for nm, x in zip(names, vals):
+                        sel[(br, nm)] = str(x).replace("fast_ticc.numba_guard.", "")
     want = {("numba", "njit"): "numba.njit", ("numba", "prange"): "numba.prange", ("fallback", "njit"): "fake_njit", ("fallback", "prange"): "fake_prange"}
     ctx.check(all(sel.get(k) == v for k, v in want.items()), g.name, "module-level njit/prange select Numba's or the fall-backs",
               role="fallback:selection", expected=str(want), found=str(sel))
